@@ -31,6 +31,7 @@ class Contract:
 	ensures: list[str] = field(default_factory=list)
 	raises: dict[str, str | None] = field(default_factory=dict)  # class -> exact condition over the pre-state, or None = may raise
 	modifies: list[str] = field(default_factory=list)
+	exit_asserts: list[str] = field(default_factory=list)  # facts over the function's locals at every normal return (checked; not visible to callers)
 	loops: dict[int, Loop] = field(default_factory=dict)
 	types: dict[str, str] = field(default_factory=dict)  # parameter / local / return types where annotations are missing or abstract
 	instantiate: dict[str, list[Any]] = field(default_factory=dict)
